@@ -574,7 +574,11 @@ func c12Packages(c *mc.Ctx, ws *pipe.Workspace) {
 
 func c12Replay(raw json.RawMessage) *mc.Violation {
 	var cs c12Case
-	if err := json.Unmarshal(raw, &cs); err != nil || cs.Files == nil {
+	var pkgProbe struct {
+		Name string `json:"package_config"`
+	}
+	json.Unmarshal(raw, &pkgProbe)
+	if err := json.Unmarshal(raw, &cs); err != nil || cs.Files == nil || pkgProbe.Name != "" {
 		// package-axis cases are replayed by running the menu entry again
 		var pc struct {
 			Name string `json:"package_config"`
